@@ -19,8 +19,8 @@ ASSUMPTIONS = [
     'transitions are observed through ENTERED_STATE callbacks while the process is open and through state sampling after every loop callback afterwards',
 ]
 BUDGET = {
-    'quick': {'enum': ['k1', 'k2', 'hooks', 'wc', 'tasks', 'observers', 'closed', 'extsoon', 'listener', 'lsave'], 'hyp': 4000, 'shards': 8},
-    'thorough': {'enum': ['k1', 'k2', 'k3', 'k4w', 'hooks', 'wc', 'tasks', 'observers', 'closed', 'extsoon', 'listener', 'lsave'], 'hyp': 160000, 'shards': 16},
+    'quick': {'enum': ['k1', 'k2', 'hooks', 'wc', 'tasks', 'observers', 'closed', 'extsoon', 'listener', 'lsave', 'lateapi'], 'hyp': 4000, 'shards': 8},
+    'thorough': {'enum': ['k1', 'k2', 'k3', 'k4w', 'hooks', 'wc', 'tasks', 'observers', 'closed', 'extsoon', 'listener', 'lsave', 'lateapi'], 'hyp': 160000, 'shards': 16},
 }
 
 ALPHABET = [['pause', 'p'], ['play'], ['kill', 'kt'], ['resume', 1], ['fail', '']]  # (an exception with an empty message is an exception)
@@ -110,6 +110,22 @@ def enumerate_cases(tier, scope):
                     for sched in ([], [['tick', 1], ['kill', 'k']], [['tick', 2], ['pause', 'p']], [['tick', 1], ['fail', 'f']]):
                         yield {'program': gen.CATALOGUE[name], 'schedule': sched, 'listener': [{'on': on, 'occ': 1, 'do': do}]}
         return
+    if scope == 'lateapi':
+        # hooks that run when the terminal state has been entered (and before the process is closed) use the process:
+        # they emit a last output, register a clean-up, take the listener off - none of which raises there
+        for name in ('wait1', 'chain', 'async2', 'selfkill', 'failing'):
+            for hook in ('on_finished', 'on_killed', 'on_excepted', 'on_terminated', 'on_finish', 'on_kill', 'on_except'):
+                for pos in ('pre', 'post'):
+                    for do in (['out', ['late', 1]], ['add_cleanup', None], ['unlisten', None]):
+                        if hook == 'on_terminated' and pos == 'post' and do[0] != 'unlisten':
+                            continue  # (super().on_terminated() closes the process: using it afterwards is refused, rightly)
+                        for sched in ([], [['tick', 1], ['kill', 'k']], [['tick', 1], ['fail', 'f']]):
+                            yield {'program': gen.CATALOGUE[name], 'schedule': sched, 'hooks': [{'hook': hook, 'occ': 1, 'pos': pos, 'do': do}]}
+                            if do[0] == 'unlisten':
+                                # ... after the (one-shot) listener already took itself off when it was told about the end
+                                for on in ('on_process_finished', 'on_process_killed', 'on_process_excepted'):
+                                    yield {'program': gen.CATALOGUE[name], 'schedule': sched, 'hooks': [{'hook': hook, 'occ': 1, 'pos': pos, 'do': do}], 'listener': [{'on': on, 'occ': 1, 'do': ['unsubscribe']}]}
+        return
     if scope == 'lsave':
         # a listener checkpoints the process from inside its notifications; the process may end with an exception that
         # cannot be serialised, so that the checkpoint of the terminal state fails (in the listener)
@@ -130,6 +146,11 @@ def enumerate_cases(tier, scope):
                                 continue
                             for sched in ([], [['tick', 1], ['pause', 'p']], [['tick', 2], ['kill', 'k']]):
                                 yield {'program': gen.CATALOGUE[name], 'schedule': sched, 'hooks': [{'hook': hook, 'occ': occ, 'pos': pos, 'do': do}]}
+                            if do[0] in ('kill', 'fail') and occ == 1 and name in ('wait1', 'async2'):
+                                # requests carried out directly (the process is not stepping: not started yet, or paused):
+                                # a hook of that very transition asks for another one, which the library refuses
+                                for sched in ([['kill', 'k0']], [['pause', 'p'], ['tick', 2], ['kill', 'k']], [['tick', 1], ['pause', 'p'], ['tick', 2], ['kill', 'k']], [['fail', 'f0']]):
+                                    yield {'program': gen.CATALOGUE[name], 'schedule': sched, 'hooks': [{'hook': hook, 'occ': occ, 'pos': pos, 'do': do}]}
         return
     k = int(scope[1])
     max_gap = {1: 8, 2: 5, 3: 3}[k]
